@@ -201,11 +201,12 @@ fn check_site(lat: f64, lon: f64, date: NaiveDate, rep: &mut Report) -> Result<(
     // the schedule of the day shows exactly the local event times (minute resolution)
     let open: Vec<(u16, u16)> = oh.schedule_at(date).into_iter().filter(|t| t.kind == RuleKind::Open).map(|t| (t.range.start.mins_from_midnight(), t.range.end.mins_from_midnight())).collect();
     let m = |t: NaiveDateTime| (t.hour() * 60 + t.minute()) as u16;
-    if open != vec![(m(l_rise), m(l_set))] {
+    // (other open ranges can be yesterday's span passing local midnight at high latitude)
+    if !open.contains(&(m(l_rise), m(l_set))) {
         return Err(format!("'sunrise-sunset' at ({lat}, {lon}) [{tz}] on {date}: open {open:?} (minutes), local sunrise {l_rise} sunset {l_set}"));
     }
     let open2: Vec<(u16, u16)> = oh2.schedule_at(date).into_iter().filter(|t| t.kind == RuleKind::Open).map(|t| (t.range.start.mins_from_midnight(), t.range.end.mins_from_midnight())).collect();
-    if open2 != vec![(m(l_dawn), m(l_dusk))] {
+    if !open2.contains(&(m(l_dawn), m(l_dusk))) {
         return Err(format!("'dawn-dusk' at ({lat}, {lon}) [{tz}] on {date}: open {open2:?} (minutes), local dawn {l_dawn} dusk {l_dusk}"));
     }
     let noon_i = tz.from_utc_datetime(&noon.naive_utc());
